@@ -1391,6 +1391,11 @@ class Store:
                 mother_processes = self.get_path(mother_path).get_processes()
                 processes = copy.deepcopy(mother_processes)
                 processes = processes or {}
+                # The mother's processes may have an update in flight;
+                # their copies start with no command pending.
+                for _, process in dict_to_paths((), processes):
+                    process._pending_command = None
+                    process._command_result = None
 
             # get the daughter topology
             if 'topology' in daughter:
